@@ -149,7 +149,8 @@ Inductive dialres := DialOK (local_v6 : bool) | DialRefused | DialNetUnreach | D
 Record env := {
   resolve : bytes -> option bytes;          (* DNSResolver.Resolve: the IP (4 or 16 bytes) or an error *)
   dial : bytes -> Z -> dialres;             (* net.Dial("tcp", host:port) *)
-  listen_udp : option bool                  (* net.ListenUDP("udp", nil): local address is IPv6? / error *)
+  listen_udp : option bool;                 (* net.ListenUDP("udp", nil): local address is IPv6? / error *)
+  client_ip : option bytes                  (* conn.RemoteAddr() is a *net.TCPAddr with this IP / something else *)
 }.
 
 Inductive event :=
@@ -157,7 +158,7 @@ Inductive event :=
 | AuthOK (user pass : bytes)      (* Credentials.Valid(user, pass) returned true *)
 | Resolve (fqdn : bytes)
 | Dial (ip : bytes) (port : Z)    (* ip = [] : the host part is empty (":port") *)
-| ListenUDP.
+| ListenUDP (dst_ip : bytes) (dst_port : Z).   (* relay opened for a client that announced dst_ip:dst_port as its own address *)
 
 Inductive ending :=
 | EErr                     (* ServeConn returns an error; the connection is closed *)
@@ -232,6 +233,29 @@ Definition port_of (b : bytes) : Z := Z.of_N (be_N b).
 Definition allow (r : rule) (cmd : Z) : bool :=
   (if cmd =? 1 then en_connect r else if cmd =? 2 then en_bind r else if cmd =? 3 then en_assoc r else false)%Z.
 
+(* ------------------------------------------------------------------ the UDP relay's source check *)
+(* handleAssociate: a datagram arriving at the relay port from src is forwarded iff
+     (request.DestAddr.IP.IsUnspecified() || request.DestAddr.IP.Equal(src.IP)) &&
+     (request.DestAddr.Port == 0 || request.DestAddr.Port == src.Port)
+   IPs are 4 or 16 bytes; net.IP.Equal identifies an IPv4 address with its IPv4-mapped IPv6 form. *)
+Definition v4mapped_prefix : bytes := repeat x00 10 ++ [xff; xff].
+Definition ip_norm (ip : bytes) : bytes :=
+  if (length ip =? 16)%nat && bytes_eqb (firstn 12 ip) v4mapped_prefix then skipn 12 ip else ip.
+Definition ip_equal (a b : bytes) : bool := bytes_eqb (ip_norm a) (ip_norm b).
+Definition ip_unspecified (ip : bytes) : bool :=   (* net.IP.IsUnspecified: 0.0.0.0, ::, ::ffff:0.0.0.0 *)
+  let n := ip_norm ip in ((length n =? 4)%nat || (length n =? 16)%nat) && forallb (fun b => (zb b =? 0)%Z) n.
+
+(* associateSourceRewriter (socks5_handler.go): an ASSOCIATE request that announces no address is
+   pinned to the IP of the client's TCP connection (when that is known) *)
+Definition pin_source (client : option bytes) (ip : bytes) : bytes :=
+  if negb (length ip =? 0)%nat && negb (ip_unspecified ip) then ip
+  else match client with
+       | Some c => if (length c =? 0)%nat || ip_unspecified c then ip else c
+       | None => ip
+       end.
+Definition relay_accepts (dst_ip : bytes) (dst_port : Z) (src_ip : bytes) (src_port : Z) : bool :=
+  (ip_unspecified dst_ip || ip_equal dst_ip src_ip) && ((dst_port =? 0) || (dst_port =? src_port))%Z.
+
 (* handleRequest after the destination is known (ip = [] when the request carried an empty domain) *)
 Definition dispatch (srv : server) (e : env) (cmd : Z) (ip : bytes) (port : Z) (rest : bytes) : list event * ending :=
   if negb (allow (srule srv) cmd) then ([Out (reply_fail x02)], EErr)
@@ -245,8 +269,8 @@ Definition dispatch (srv : server) (e : env) (cmd : Z) (ip : bytes) (port : Z) (
   else if (cmd =? 2)%Z then ([Out (reply_fail x07)], EDone)     (* handleBind: not supported *)
   else
     match listen_udp e with
-    | Some v6 => ([ListenUDP; Out (reply_ok v6)], EAssoc)
-    | None => ([ListenUDP; Out (reply_fail x01)], EErr)
+    | Some v6 => ([ListenUDP (pin_source (client_ip e) ip) port; Out (reply_ok v6)], EAssoc)
+    | None => ([ListenUDP (pin_source (client_ip e) ip) port; Out (reply_fail x01)], EErr)
     end.
 
 Definition known_cmd (cmd : Z) : bool := ((cmd =? 1) || (cmd =? 2) || (cmd =? 3))%Z.
@@ -308,8 +332,9 @@ Definition serve (srv : server) (e : env) (inp : bytes) : list event * ending :=
   end.
 
 (* ------------------------------------------------------------------ observables *)
-Definition outbound (ev : event) : bool := match ev with Dial _ _ | ListenUDP => true | _ => false end.
+Definition outbound (ev : event) : bool := match ev with Dial _ _ | ListenUDP _ _ => true | _ => false end.
 Definition is_resolve (ev : event) : bool := match ev with Resolve _ => true | _ => false end.
 Definition written (evs : list event) : bytes := flat_map (fun ev => match ev with Out b => b | _ => [] end) evs.
 Definition outbound_dial (ev : event) : bool := match ev with Dial _ _ => true | _ => false end.
-Definition is_listen (ev : event) : bool := match ev with ListenUDP => true | _ => false end.
+Definition is_listen (ev : event) : bool := match ev with ListenUDP _ _ => true | _ => false end.
+
